@@ -126,6 +126,37 @@ SMALL = {
         },
         "marks": {"em": {}, "link": {"attrs": {"href": {}}, "inclusive": False}},
     },
+    # S2: lists and strictness
+    "s2": {
+        "nodes": {
+            "doc": {"content": "block+"},
+            "p": {"content": "inline*", "group": "block"},
+            "h": {"content": "inline*", "group": "block", "defining": True, "attrs": {"level": {"default": 1}}},
+            "bq": {"content": "block+", "group": "block", "defining": True},
+            "ul": {"content": "li+", "group": "block"},
+            "ol": {"content": "li+", "group": "block", "attrs": {"order": {"default": 1}}},
+            "li": {"content": "p block*", "defining": True},
+            "hr": {"group": "block"},
+            "cb": {"content": "text*", "marks": "", "group": "block", "code": True, "defining": True},
+            "text": {"group": "inline"},
+            "br": {"inline": True, "group": "inline"},
+        },
+        "marks": {"em": {}, "link": {"attrs": {"href": {}}, "inclusive": False}},
+    },
+    # S2': upstream's strict heading/body shape over S2
+    "s2s": {
+        "nodes": {
+            "doc": {"content": "h body"},
+            "body": {"content": "block+"},
+            "p": {"content": "inline*", "group": "block"},
+            "h": {"content": "inline*", "group": "block", "defining": True, "attrs": {"level": {"default": 1}}},
+            "bq": {"content": "block+", "group": "block", "defining": True},
+            "ul": {"content": "li+", "group": "block"},
+            "li": {"content": "p block*", "defining": True},
+            "text": {"group": "inline"},
+        },
+        "marks": {"em": {}},
+    },
     # S3: isolating containers and table-like structure
     "s3": {
         "nodes": {
